@@ -120,7 +120,7 @@ func (f *frame) call(res ssa.Value, c *ssa.CallCommon, ins ssa.Instruction) {
 		return
 	}
 	vc.assumed["calls through function values: havoc of all heaps, results unconstrained"] = true
-	f.st = vc.havoc(f.st, map[string]bool{"*": true})
+	f.havocTo(f.st, map[string]bool{"*": true})
 	setRes(f.freshResults(c.Signature(), "dyn"))
 }
 
@@ -166,7 +166,7 @@ func (f *frame) callFunc(fn *ssa.Function, args []Val, binds []Val, c *ssa.CallC
 	if !hasBody {
 		vc.assumed["no contract for "+fn.String()+": effect derived from parameter types, result unconstrained"] = true
 	}
-	f.st = vc.havoc(f.st, eff)
+	f.havocTo(f.st, eff)
 	return f.freshResults(fn.Signature, fn.Name())
 }
 
@@ -228,7 +228,7 @@ func (f *frame) applyContract(ct *Contract, fn *ssa.Function, sig *types.Signatu
 	}
 	// frame
 	eff := eng.contractEffects(ct, fn, sig)
-	f.st = vc.havoc(pre, eff)
+	f.havocTo(pre, eff)
 	post := f.st
 	f.frameFormulas(ct, env, pre, post, eff)
 	results := f.freshResults(sig, "r."+sanitize(display))
@@ -308,6 +308,9 @@ func (f *frame) frameConds(ct *Contract, env *specEnv, pre, post *hstate, eff ma
 		switch {
 		case it.All:
 		case it.Heap != "":
+			if it.Fresh {
+				continue
+			}
 			for h := range eff {
 				if heapMatches(it.Heap, h) {
 					get(h).all = true
@@ -334,9 +337,14 @@ func (f *frame) frameConds(ct *Contract, env *specEnv, pre, post *hstate, eff ma
 		if x != nil && x.all {
 			continue
 		}
-		srt, ok := vc.heapSort[h]
+		srt, ok := vc.sortForHeap(h)
 		if !ok {
-			continue // heap never referenced in this VC
+			if strings.HasPrefix(h, "E.") && !strings.Contains(h, "sl") {
+				srt = "(Array Int (Array Int Int))"
+			} else {
+				vc.notes = append(vc.notes, "frame condition for heap "+h+" skipped: sort unknown")
+				continue
+			}
 		}
 		hp := vc.lookup(pre, h, srt)
 		hq := vc.lookup(post, h, srt)
@@ -485,7 +493,7 @@ func (f *frame) invoke(c *ssa.CallCommon, pos token.Pos) []Val {
 		return f.applyIface(ct, c, sig, args, pos, key)
 	}
 	vc.assumed["interface method "+key+" has no contract: havoc of all heaps, results unconstrained"] = true
-	f.st = vc.havoc(f.st, map[string]bool{"*": true})
+	f.havocTo(f.st, map[string]bool{"*": true})
 	return f.freshResults(sig, c.Method.Name())
 }
 
@@ -528,7 +536,7 @@ func (f *frame) applyIface(ct *Contract, c *ssa.CallCommon, sig *types.Signature
 		f.oblige("pre", short+"."+cl.Label, cl.Props, env.trBool(cl.Expr), pos)
 	}
 	eff := vc.eng.contractEffects(ct, nil, sig)
-	f.st = vc.havoc(pre, eff)
+	f.havocTo(pre, eff)
 	post := f.st
 	f.frameFormulas(ct, env, pre, post, eff)
 	results := f.freshResults(sig, "r."+sanitize(short))
